@@ -379,8 +379,13 @@ func (l *NDNLPLinkService) handleIncomingFrame(frame []byte) {
 			copy(pkt.PitToken, LP.PitToken)
 		}
 
-		// Copy fragment to wire buffer
-		wire = wire[:0]
+		// Copy fragment to wire buffer. The fragment of the current frame
+		// aliases wire, so a reassembled packet needs a buffer of its own.
+		if len(fragment) > 1 {
+			wire = make([]byte, 0, fragment.Length())
+		} else {
+			wire = wire[:0]
+		}
 		for _, b := range fragment {
 			wire = append(wire, b...)
 		}
